@@ -19,6 +19,8 @@ pub enum J {
 }
 
 const NUMS: [&str; 13] = ["0", "-1", "-0", "1.5", "1e3", "1E+2", "-2.5e-3", "9223372036854775807", "12345678901234567890", "1234567890123456", "3.14159265358979", "1E5", "1234567890123456.7890123456789012"];
+/// more numbers, used alone and as array item / object value (not in the value trees)
+const NUMS2: [&str; 30] = ["5e-324", "1e-310", "2.225073858507201e-308", "2.2250738585072014e-308", "1.7976931348623157e308", "0.1", "1e22", "1e23", "-9223372036854775808", "9223372036854775808", "-9223372036854775809", "18446744073709551615", "0e0", "0E-0", "1e+0", "123e-2", "0.000001", "1.0E+2", "-0.0", "0.0", "1e-7", "100", "1.5E300", "4.9E-324", "1e-320", "-1e-320", "10000000000000000000000", "0.30000000000000004", "9007199254740993", "123456789.123456789e-5"];
 /// (spelling, decoded)
 const SYMS: [(&str, &str); 17] = [("a", "a"), (" ", " "), (":", ":"), ("#", "#"), (",", ","), ("[", "["), ("{", "{"), ("\\\"", "\""), ("\\\\", "\\"), ("/", "/"), ("\\/", "/"), ("\\n", "\n"), ("\\t", "\t"), ("é", "é"), ("\\u00e9", "é"), ("-", "-"), ("'", "'")];
 
@@ -236,7 +238,7 @@ fn j_parse(v: &Value) -> Result<J, String> {
     }
     if let Some(n) = v.get("num") {
         let n = n.as_str().unwrap_or("");
-        return NUMS.iter().find(|x| **x == n).map(|x| J::Num(x)).ok_or_else(|| format!("unknown number {n}"));
+        return NUMS.iter().chain(NUMS2.iter()).find(|x| **x == n).map(|x| J::Num(x)).ok_or_else(|| format!("unknown number {n}"));
     }
     if let Some(s) = v.get("str") {
         return Ok(J::Str(s.as_str().unwrap_or("").into(), v["decoded"].as_str().unwrap_or("").into()));
@@ -320,7 +322,7 @@ pub fn replay(case: &Value) -> Result<Acc, String> {
 
 pub fn check(tier: Tier) -> i32 {
     let mut rep = Report::new("C13", tier, "model_checking");
-    rep.rule = "abstract values: every JSON value of <= s nodes over leaves {null, true, false, 9 boundary numbers, 6 strings} (arrays, objects with distinct keys incl. empty and quoted-quote keys), and every string of length <= 3 over 17 hostile symbols (indicators, escapes \\\" \\\\ \\/ \\n \\t \\u00e9, non-ASCII) as array item, object key and object value; serialisation: a choice among {nothing, space, LF, tab, CRLF, LF+indent, tab+space, space+tab} at EVERY token boundary (all vectors with <= d deviations) plus three pretty-printers (indent 2, indent 4, tab); oracle: Yaml::load_from_str gives exactly one document equal to the JSON value (objects -> ordered mappings with string keys, integers that fit i64 -> Integer, other numbers -> Float of the same value, escapes decoded). Non-trivial: every serialisation; distinct: distinct texts.".into();
+    rep.rule = "abstract values: every JSON value of <= s nodes over leaves {null, true, false, 9 boundary numbers, 6 strings} (arrays, objects with distinct keys incl. empty and quoted-quote keys), and every string of length <= 3 over 17 hostile symbols (indicators, escapes \\\" \\\\ \\/ \\n \\t \\u00e9, non-ASCII) as array item, object key and object value; 30 more boundary numbers (subnormals, extremes, integers around 2^63 and 2^64, exponent spellings) at 3 positions; every \\uXXXX escape of the BMP outside the surrogate range in both hex cases plus \\b \\f \\r; serialisation: a choice among {nothing, space, LF, tab, CRLF, LF+indent, tab+space, space+tab} at EVERY token boundary (all vectors with <= d deviations) plus three pretty-printers (indent 2, indent 4, tab); oracle: Yaml::load_from_str gives exactly one document equal to the JSON value (objects -> ordered mappings with string keys, integers that fit i64 -> Integer, other numbers -> Float of the same value, escapes decoded). Non-trivial: every serialisation; distinct: distinct texts.".into();
     rep.assumptions = vec!["number values: std's str::parse::<f64> of the JSON number text".into(), "objects have no duplicate keys; nesting stays far below the flow-depth limit; no surrogate \\u escapes".into()];
     let budget = Budget::new(wall_cap(tier));
     rep.mandatory_scopes = 2;
@@ -374,6 +376,47 @@ pub fn check(tier: Tier) -> i32 {
     trans += acc.counters.get("choice_edges").copied().unwrap_or(0);
     rep.acc.merge(acc);
     rep.scope(&format!("hostile strings <= 3 symbols ({}) x 4 positions x <= {ds} deviations", strs.len()), n, done == strs.len() as u64);
+    // number table
+    let (acc, done) = par_blocks(NUMS2.len() as u64, &budget, |b, acc| {
+        let n = J::Num(NUMS2[b as usize]);
+        for j in [n.clone(), J::Arr(vec![n.clone(), n.clone()]), J::Obj(vec![(("k".into(), "k".into()), n.clone())])] {
+            let (c, t) = explore(2, &mut |ch: &mut Ch| eval(&j, ch, acc));
+            acc.count("choice_vectors", c);
+            acc.count("choice_edges", t);
+        }
+    });
+    let n = acc.evals;
+    states += acc.counters.get("choice_vectors").copied().unwrap_or(0);
+    trans += acc.counters.get("choice_edges").copied().unwrap_or(0);
+    rep.acc.merge(acc);
+    rep.scope(&format!("number table ({}) x 3 positions x <= 2 deviations", NUMS2.len()), n, done == NUMS2.len() as u64);
+    // every \uXXXX escape of the BMP outside the surrogate range (lower- and upper-case hex), and the
+    // short escapes \b \f \r, as array item, object key and object value
+    let mut esc: Vec<(String, String)> = vec![("\\b".into(), "\u{8}".into()), ("\\f".into(), "\u{c}".into()), ("\\r".into(), "\r".into()), ("a\\rb".into(), "a\rb".into())];
+    for cp in 0u32..=0xffff {
+        if let Some(c) = char::from_u32(cp) {
+            esc.push((format!("\\u{cp:04x}"), c.to_string()));
+            if format!("{cp:04x}") != format!("{cp:04X}") {
+                esc.push((format!("\\u{cp:04X}"), c.to_string()));
+            }
+        }
+    }
+    let nb = (esc.len() + 255) / 256;
+    let (acc, done) = par_blocks(nb as u64, &budget, |b, acc| {
+        for (sp, dec) in esc.iter().skip(b as usize * 256).take(256) {
+            let st = J::Str(format!("x{sp}y"), format!("x{dec}y"));
+            for j in [J::Arr(vec![st.clone()]), J::Obj(vec![((sp.clone(), dec.clone()), st.clone())])] {
+                let (c, t) = explore(0, &mut |ch: &mut Ch| eval(&j, ch, acc));
+                acc.count("choice_vectors", c);
+                acc.count("choice_edges", t);
+            }
+        }
+    });
+    let n = acc.evals;
+    states += acc.counters.get("choice_vectors").copied().unwrap_or(0);
+    trans += acc.counters.get("choice_edges").copied().unwrap_or(0);
+    rep.acc.merge(acc);
+    rep.scope(&format!("escape table ({} spellings: every BMP \\uXXXX outside D800-DFFF in both hex cases, \\b \\f \\r) as array item, key and value", esc.len()), n, done == nb as u64);
     rep.mc = Some((states.max(1), trans.max(1), rep.acc.evals));
     rep.extra.insert("explanation".into(), json!("states = choice vectors (serialisations); transitions = edges of the choice tree; traces_validated = loads of the serialised text by the real loader compared with the JSON value"));
     rep.finish()
